@@ -16,8 +16,8 @@ import time
 from pathlib import Path
 
 VERIF = Path(__file__).resolve().parent.parent
-WT = Path("/tmp/seedrun/wt")
-OUT = Path("/tmp/seedrun/out")
+WT = Path(os.environ.get("SEEDRUN_WT", "/tmp/seedrun/wt"))  # a second instance may run beside the first with another scratch path
+OUT = Path(str(WT) + ".out")
 
 
 def sh(*a, **k):
@@ -94,7 +94,7 @@ def main():
         sh("git", "-C", "/repo", "worktree", "remove", "--force", str(WT))
         shutil.rmtree(OUT, ignore_errors=True)
         # the generated tables were rebuilt from the scratch tree: put them back to /repo's
-        subprocess.run([str(VERIF / "tools" / "regen.py")], capture_output=True)
+        subprocess.run([str(VERIF / "tools" / "regen.py")], capture_output=True, env={k: v for k, v in os.environ.items() if k != "CDD_REPO"})
     print()
     for n, v in rows:
         print("%-8s %s" % (n, v))
